@@ -22,6 +22,7 @@ type Req struct {
 	Lines     [][2]string `json:"lines"`            // client-supplied forwarding header lines
 	Scheme    string      `json:"scheme,omitempty"` // HTTP/2 only: the :scheme the client claims
 	HostHdr   string      `json:"host_hdr,omitempty"` // HTTP/2 only: a "host" field next to :authority (RFC 9113 8.3.1: :authority is what the client addressed)
+	Fillers   int         `json:"fillers,omitempty"`  // header fields with never-seen names ahead of the forwarding lines
 }
 
 type Script struct {
@@ -30,6 +31,9 @@ type Script struct {
 	PeerPort     int    `json:"peer_port"`
 	PreserveHost bool   `json:"preserve_host"`
 	Reqs         []Req  `json:"reqs"`
+	// SplitHello: the ClientHello is spread over two TLS records: the handshake completes, the fingerprint
+	// injectors fail for this connection. The forwarding headers have nothing to do with that.
+	SplitHello bool `json:"split_hello,omitempty"`
 }
 
 var col = vstat.New("C09", "c09.forwarding")
@@ -50,6 +54,7 @@ func gen(t *rapid.T) Script {
 	s.PeerIP = rapid.SampledFrom([]string{"198.51.100.7", "10.1.2.3", "2001:db8::7", "::1", "::ffff:203.0.113.9", "fe80::1", "255.255.255.255"}).Draw(t, "ip")
 	s.PeerPort = rapid.IntRange(1, 65535).Draw(t, "port")
 	s.PreserveHost = rapid.Bool().Draw(t, "ph")
+	s.SplitHello = rapid.IntRange(0, 5).Draw(t, "split") == 0
 	n := rapid.IntRange(1, 3).Draw(t, "n")
 	for i := 0; i < n; i++ {
 		r := Req{Path: fmt.Sprintf("/f%d", i)}
@@ -61,6 +66,7 @@ func gen(t *rapid.T) Script {
 		if s.Proto == "h2" && rapid.IntRange(0, 3).Draw(t, "hosthdr") == 0 {
 			r.HostHdr = rapid.SampledFrom([]string{"admin.internal", "example.com", "other.example:8443"}).Draw(t, "hh")
 		}
+		r.Fillers = rapid.SampledFrom([]int{0, 0, 0, 24, 40}).Draw(t, "fillers")
 		nl := rapid.IntRange(0, 5).Draw(t, "nl")
 		for j := 0; j < nl; j++ {
 			switch rapid.IntRange(0, 3).Draw(t, "kind") {
@@ -100,7 +106,13 @@ func exec(t *testing.T, s Script) *vstat.Violation {
 		if s.Proto != "none" {
 			alpn = []string{s.Proto}
 		}
-		cc, err := rig.Connect(p, alpn, peer)
+		var cc *rig.ClientConn
+		var err error
+		if s.SplitHello {
+			cc, err = rig.ConnectSplitFrom(p, alpn, 40, peer)
+		} else {
+			cc, err = rig.Connect(p, alpn, peer)
+		}
 		if err != nil {
 			hsErr = err
 			return
@@ -109,6 +121,13 @@ func exec(t *testing.T, s Script) *vstat.Violation {
 		_ = cc.TLS.Proto
 		for _, r := range s.Reqs {
 			hdrs := r.Lines
+			if r.Fillers > 0 {
+				hdrs = nil
+				for j := 0; j < r.Fillers; j++ {
+					hdrs = append(hdrs, [2]string{fmt.Sprintf("x-filler-%s-%d", strings.Trim(r.Path, "/"), j), "f"})
+				}
+				hdrs = append(hdrs, r.Lines...)
+			}
 			if r.HostHdr != "" {
 				hdrs = append(append([][2]string{}, r.Lines...), [2]string{"host", r.HostHdr})
 			}
@@ -184,8 +203,14 @@ func exec(t *testing.T, s Script) *vstat.Violation {
 		}
 		if r.HostHdr != "" && r.HostHdr != r.Authority {
 			nt = true
-			cl = append(cl, "h2-host-field-differs-from-authority")
+			cl = append(cl, "h2-host-field-differs-from-authority", "client-lines-after-20+-distinct-header-names:h2", "fingerprint-injectors-fail-for-this-connection")
 		}
+		if r.Fillers >= 20 && len(r.Lines) > 0 {
+			cl = append(cl, "client-lines-after-20+-distinct-header-names:"+s.Proto)
+		}
+	}
+	if s.SplitHello {
+		cl = append(cl, "fingerprint-injectors-fail-for-this-connection")
 	}
 	col.Case(fmt.Sprintf("%+v", s), nt, s, dedup(cl)...)
 	return nil
